@@ -10,6 +10,7 @@ import (
 	"os"
 	"path/filepath"
 	"reflect"
+	"sort"
 	"strings"
 	"unicode/utf8"
 
@@ -182,17 +183,26 @@ var chars = func() []string {
 	return out
 }()
 
-func charClass(ch string) string {
-	if ch[0] < 0x20 {
-		return "control-character"
+func charClass(s string) string {
+	var out []string
+	for _, r := range s {
+		cl := "ascii"
+		switch {
+		case r < 0x20:
+			cl = "control-character"
+		case r == '"' || r == '\\':
+			cl = "quote-or-backslash"
+		case r >= 0x80:
+			cl = "non-ascii"
+		}
+		if len(out) == 0 || out[len(out)-1] != cl {
+			out = append(out, cl)
+		}
 	}
-	if ch == "\"" || ch == "\\" {
-		return "quote-or-backslash"
+	if len([]rune(s)) > 1 && len(out) == 1 {
+		return out[0] + "-run"
 	}
-	if len(ch) > 1 {
-		return "non-ascii"
-	}
-	return "ascii"
+	return strings.Join(out, "+")
 }
 
 type Case struct {
@@ -202,6 +212,7 @@ type Case struct {
 	Alt     string   `json:"alteration,omitempty"`
 	Leaf    string   `json:"leaf,omitempty"`
 	Char    string   `json:"char,omitempty"`
+	Bare    bool     `json:"bare,omitempty"` // the characters are the whole string (no padding)
 	Style   string   `json:"style,omitempty"`
 	Number  string   `json:"number,omitempty"`
 	Ops     []string `json:"ops,omitempty"`
@@ -335,6 +346,9 @@ func judge(c *mcx.Ctx, cs Case) (obs, sig, class string) {
 		return "different bytes, equal to reference", "", "distinct-bytes"
 	case "characters":
 		val := "x" + cs.Char + "y"
+		if cs.Bare {
+			val = cs.Char
+		}
 		var p any
 		ok := false
 		switch cs.Leaf {
@@ -563,6 +577,15 @@ func enumerate(thorough bool, emit func(Case)) {
 						emit(Case{Part: "characters", Content: name, DSSE: dsse, Leaf: lf, Char: ch})
 					}
 				}
+				// every ordered pair of those characters side by side, padded and as the whole string
+				for _, lf := range []string{leaves[0], "<byproduct-key>"} {
+					for _, c1 := range chars {
+						for _, c2 := range chars {
+							emit(Case{Part: "characters", Content: name, DSSE: dsse, Leaf: lf, Char: c1 + c2})
+							emit(Case{Part: "characters", Content: name, DSSE: dsse, Leaf: lf, Char: c1 + c2, Bare: true})
+						}
+					}
+				}
 			}
 			if name == "link-full" {
 				for n := range numbers {
@@ -623,13 +646,19 @@ func run(c *mcx.Ctx) {
 }
 
 func sortCases(l []Case) []Case {
-	key := func(c Case) string { return gen.JSON(c) }
-	out := append([]Case{}, l...)
-	// stable insertion by JSON key keeps enumeration independent of map order
-	for i := 1; i < len(out); i++ {
-		for j := i; j > 0 && key(out[j]) < key(out[j-1]); j-- {
-			out[j], out[j-1] = out[j-1], out[j]
-		}
+	// stable order by JSON key keeps the enumeration independent of map order
+	type kc struct {
+		k string
+		c Case
+	}
+	ks := make([]kc, len(l))
+	for i, c := range l {
+		ks[i] = kc{gen.JSON(c), c}
+	}
+	sort.SliceStable(ks, func(i, j int) bool { return ks[i].k < ks[j].k })
+	out := make([]Case, len(l))
+	for i := range ks {
+		out[i] = ks[i].c
 	}
 	return out
 }
@@ -649,7 +678,7 @@ func init() {
 		ID: "C11", Run: run, Replay: replay,
 		Rule: "schema walk over four catalogue metadata (link and layout, each fully populated - nested by-products, two hash algorithms, certificate constraints, RSA/ECDSA/Ed25519 keys, root and intermediate CA maps - and empty) x {legacy, DSSE}: " +
 			"reference equality (signable bytes = ref.Canon of a tree built from an independently spelled schema; DSSE payload is valid JSON that decodes to that tree); injectivity (every reflective single-point alteration gives different bytes, again equal to the reference); " +
-			"every string leaf plus artifact path and by-product key x 49 characters (every control character U+0000-U+001F, quote, backslash, slash, DEL, <, &, >, é, U+2028/9, U+FFFD, astral, ...) incl. dump and reload through the library's own loader and signature check; " +
+			"every string leaf plus artifact path and by-product key x 49 characters (every control character U+0000-U+001F, quote, backslash, slash, DEL, <, &, >, é, U+2028/9, U+FFFD, astral, ...) incl. dump and reload through the library's own loader and signature check; every ordered pair of those characters side by side (padded and as the whole string) at one plain leaf and the by-product key; " +
 			"five re-serialisations of each dumped file (member order reversed/rotated, compact/indented/tab/CRLF, \\uXXXX and \\/ escapes) through both loaders; integral vs non-integral numbers through encoder, Sign and Wrap; all SetPayload histories (set, mutate in place, re-set, sign) up to depth 3 (thorough 4) on one envelope. " +
 			"Distinct by construction; non-trivial = everything except the four plain reference comparisons. states = cases.",
 		Assumptions: []string{"strings that are not valid UTF-8 and integral numbers outside int64 are outside the alphabet", "nil versus empty collections are not distinguished (catalogue uses non-nil collections)"},
